@@ -4,3 +4,616 @@ From Coq Require Import ZifyN ZifyNat ZifyBool.
 
 Lemma marshal_to_last : forall o, exists p, marshal_to o = p ++ [127].
 Proof. intros o. unfold marshal_to. exists (field_enc 0 (key o) ++ field_enc 1 (val o)). now rewrite app_assoc. Qed.
+
+(** * Generic list / nlen facts *)
+
+Lemma nlen_nil {A} : nlen (@nil A) = 0.
+Proof. reflexivity. Qed.
+
+Lemma nlen_cons {A} (a : A) (l : list A) : nlen (a :: l) = 1 + nlen l.
+Proof. unfold nlen. cbn [length]. lia. Qed.
+
+Lemma nlen_app {A} (l1 l2 : list A) : nlen (l1 ++ l2) = nlen l1 + nlen l2.
+Proof. unfold nlen. rewrite app_length. lia. Qed.
+
+Lemma nlen_0_nil {A} (l : list A) : nlen l = 0 -> l = [].
+Proof. destruct l as [|a l]; [reflexivity|]. rewrite nlen_cons. lia. Qed.
+
+Lemma skipn_skipn_nat {A} (n m : nat) : forall (l : list A), skipn n (skipn m l) = skipn (m + n) l.
+Proof.
+  induction m as [|m IH]; intros l.
+  - reflexivity.
+  - destruct l as [|a l].
+    + cbn [skipn Nat.add]. now rewrite skipn_nil.
+    + cbn [skipn Nat.add]. apply IH.
+Qed.
+
+Lemma skipn_cons_nat {A} (n : nat) : forall (l : list A) b r,
+  skipn n l = b :: r -> nth_error l n = Some b /\ skipn (S n) l = r /\ (n < length l)%nat.
+Proof.
+  induction n as [|n IH]; intros l b r H.
+  - destruct l as [|a l]; cbn [skipn] in H; [discriminate|].
+    inversion H; subst. cbn [nth_error skipn length]. repeat split. lia.
+  - destruct l as [|a l]; cbn [skipn] in H; [discriminate|].
+    destruct (IH l b r H) as (H1 & H2 & H3).
+    cbn [nth_error length]. rewrite skipn_cons. repeat split; [exact H1|exact H2|lia].
+Qed.
+
+Lemma skipn_nil_nat {A} (n : nat) : forall (l : list A), skipn n l = [] -> (length l <= n)%nat.
+Proof.
+  intros l H. pose proof (skipn_length n l) as HL. rewrite H in HL. cbn [length] in HL. lia.
+Qed.
+
+(** N-indexed versions *)
+Lemma skipn_cons_N {A} (data : list A) (i : N) b r :
+  skipn (N.to_nat i) data = b :: r ->
+  get data i = Some b /\ skipn (N.to_nat (i + 1)) data = r /\ i < nlen data.
+Proof.
+  intros H. destruct (skipn_cons_nat _ _ _ _ H) as (H1 & H2 & H3).
+  unfold get, nlen. replace (N.to_nat (i + 1)) with (S (N.to_nat i)) by lia.
+  repeat split; [exact H1|exact H2|lia].
+Qed.
+
+Lemma skipn_nil_N {A} (data : list A) (i : N) :
+  skipn (N.to_nat i) data = [] -> nlen data <= i.
+Proof. intros H. apply skipn_nil_nat in H. unfold nlen. lia. Qed.
+
+Lemma skipn_all_N {A} (data : list A) (i : N) :
+  nlen data <= i -> skipn (N.to_nat i) data = [].
+Proof. intros H. apply skipn_all2. unfold nlen in H. lia. Qed.
+
+Lemma nlen_skipn {A} (data : list A) (i : N) :
+  nlen (skipn (N.to_nat i) data) = nlen data - i.
+Proof. unfold nlen. rewrite skipn_length. lia. Qed.
+
+(** * C20.1 / C20.2 : MarshalLen agrees with MarshalTo *)
+
+Lemma varint_enc_len f : forall x, nlen (varint_enc f x) = 1 + varint_extra f x.
+Proof.
+  induction f as [|f IH]; intros x; cbn [varint_enc varint_extra].
+  - reflexivity.
+  - destruct (128 <=? x).
+    + rewrite nlen_cons, IH. reflexivity.
+    + reflexivity.
+Qed.
+
+Lemma field_enc_len sm h s a : field_len sm s = Some a -> nlen (field_enc h s) = a.
+Proof.
+  unfold field_len, field_enc. cbv zeta. destruct (nlen s =? 0) eqn:E0.
+  - intros [= <-]. reflexivity.
+  - destruct (sm <? nlen s); [discriminate|]. intros [= <-].
+    rewrite nlen_cons, nlen_app, varint_enc_len. lia.
+Qed.
+
+Lemma marshal_len_ok : forall sm o l, marshal_len sm o = Some l -> nlen (marshal_to o) = l.
+Proof.
+  intros sm o l. unfold marshal_len, marshal_to.
+  destruct (field_len sm (key o)) as [a|] eqn:Ha; [|discriminate].
+  destruct (field_len sm (val o)) as [b|] eqn:Hb; [|discriminate]. cbv zeta.
+  destruct (sm <? 1 + a + b); [discriminate|]. intros H. assert (Hl : 1 + a + b = l) by congruence. clear H. subst l.
+  rewrite !nlen_app, (field_enc_len _ _ _ _ Ha), (field_enc_len _ _ _ _ Hb).
+  change (nlen [127]) with 1. lia.
+Qed.
+
+Lemma marshal_binary_ok : forall sm o l,
+  marshal_len sm o = Some l -> marshal_binary sm o = MOk (marshal_to o).
+Proof.
+  intros sm o l H. unfold marshal_binary. rewrite H. cbv zeta.
+  rewrite (marshal_len_ok _ _ _ H).
+  replace (l <? l) with false by lia.
+  replace (l - l) with 0 by lia. change (N.to_nat 0) with O. cbn [repeat].
+  now rewrite app_nil_r.
+Qed.
+
+Lemma marshal_never_crashes : forall sm o, marshal_binary sm o <> MCrash.
+Proof.
+  intros sm o. destruct (marshal_len sm o) as [l|] eqn:H.
+  - rewrite (marshal_binary_ok _ _ _ H). discriminate.
+  - unfold marshal_binary. rewrite H. discriminate.
+Qed.
+
+(** * C20.3/4/5 : the index-based transcription never crashes, stays in range, and
+      equals the list-consuming version.  One combined invariant per layer. *)
+
+Lemma varint_loop_ix_eq fuel data x s i :
+  varint_loop_ix fuel data x s i =
+  if nlen data <=? i then VEof i else
+  match fuel with
+  | O => VCrash
+  | S f =>
+    match get data i with
+    | None => VCrash
+    | Some b => if b <? 128 then VVal (N.lor x (shl64 b s)) (i + 1)
+                else varint_loop_ix f data (N.lor x (shl64 (N.land b 127) s)) (s + 7) (i + 1)
+    end
+  end.
+Proof. destruct fuel; reflexivity. Qed.
+
+Lemma at_eof_not_crash sm i : at_eof sm i <> Crash.
+Proof. unfold at_eof. destruct (sm <=? i); discriminate. Qed.
+
+Lemma at_eof_not_ok sm i j : at_eof sm i <> OkN j.
+Proof. unfold at_eof. destruct (sm <=? i); discriminate. Qed.
+
+(* outcomes that a [goto eof] / [return 0, ColferMax] can produce *)
+Definition stop_ok (out : outcome) : Prop := out <> Crash /\ forall j, out <> OkN j.
+
+Lemma at_eof_stop_ok sm i : stop_ok (at_eof sm i).
+Proof. split; [apply at_eof_not_crash|intros j; apply at_eof_not_ok]. Qed.
+
+Lemma varint_loop_rel data : forall fuel x s i,
+  nlen data <= i + N.of_nat fuel ->
+  match varint_loop_ix fuel data x s i with
+  | VEof i' => varint_loop_ls (skipn (N.to_nat i) data) x s i = LEof i'
+  | VCrash => False
+  | VVal x' i' => varint_loop_ls (skipn (N.to_nat i) data) x s i = LVal x' (skipn (N.to_nat i') data) i'
+                  /\ i' <= nlen data
+  end.
+Proof.
+  induction fuel as [|f IH]; intros x s i Hf; rewrite varint_loop_ix_eq;
+    destruct (nlen data <=? i) eqn:E.
+  - rewrite skipn_all_N by lia. reflexivity.
+  - lia.
+  - rewrite skipn_all_N by lia. reflexivity.
+  - destruct (skipn (N.to_nat i) data) as [|b r] eqn:Sk.
+    + apply skipn_nil_N in Sk. lia.
+    + destruct (skipn_cons_N _ _ _ _ Sk) as (G & Sk' & Hi).
+      rewrite G. cbn [varint_loop_ls]. destruct (b <? 128).
+      * rewrite Sk'. split; [reflexivity|lia].
+      * rewrite <- Sk'. apply IH. lia.
+Qed.
+
+Lemma read_len_rel data i :
+  match read_len_ix data i with
+  | VEof i' => read_len_ls (skipn (N.to_nat i) data) i = LEof i'
+  | VCrash => False
+  | VVal x' i' => read_len_ls (skipn (N.to_nat i) data) i = LVal x' (skipn (N.to_nat i') data) i'
+                  /\ i' <= nlen data
+  end.
+Proof.
+  unfold read_len_ix. destruct (nlen data <=? i) eqn:E.
+  - rewrite skipn_all_N by lia. reflexivity.
+  - destruct (skipn (N.to_nat i) data) as [|b r] eqn:Sk.
+    + apply skipn_nil_N in Sk. lia.
+    + destruct (skipn_cons_N _ _ _ _ Sk) as (G & Sk' & Hi).
+      rewrite G. cbn [read_len_ls]. destruct (128 <=? b).
+      * rewrite <- Sk'. apply varint_loop_rel. unfold nlen. lia.
+      * rewrite Sk'. split; [reflexivity|lia].
+Qed.
+
+Lemma read_field_rel sm data i :
+  match read_field_ix sm data i with
+  | FStop out => read_field_ls sm (skipn (N.to_nat i) data) i = LStop out /\ stop_ok out
+  | FNext s h i' => read_field_ls sm (skipn (N.to_nat i) data) i = LNext s h (skipn (N.to_nat i') data) i'
+                    /\ i' <= nlen data
+  end.
+Proof.
+  unfold read_field_ix, read_field_ls. pose proof (read_len_rel data i) as HB.
+  destruct (read_len_ix data i) as [i'| |x i1].
+  - rewrite HB. split; [reflexivity|apply at_eof_stop_ok].
+  - contradiction.
+  - destruct HB as [HB Hi1]. rewrite HB. destruct (sm <? x).
+    + split; [reflexivity|]. split; [discriminate|intros j; discriminate].
+    + cbv zeta. rewrite nlen_skipn.
+      destruct (nlen data <=? i1 + x) eqn:E.
+      * replace (nlen data - i1 <=? x) with true by lia.
+        split; [reflexivity|apply at_eof_stop_ok].
+      * replace (nlen data - i1 <=? x) with false by lia.
+        rewrite skipn_skipn_nat. replace (N.to_nat i1 + N.to_nat x)%nat with (N.to_nat (i1 + x)) by lia.
+        destruct (skipn (N.to_nat (i1 + x)) data) as [|h r] eqn:Sk.
+        -- apply skipn_nil_N in Sk. lia.
+        -- destruct (skipn_cons_N _ _ _ _ Sk) as (G & Sk' & Hi).
+           rewrite G. unfold slice.
+           replace ((i1 <=? i1 + x) && (i1 + x <=? nlen data)) with true by lia.
+           replace (i1 + x - i1) with x by lia. rewrite Sk'.
+           split; [reflexivity|lia].
+Qed.
+
+Lemma unmarshal_rel sm o data :
+  unmarshal_ix sm o data = unmarshal_ls sm o data /\
+  snd (unmarshal_ix sm o data) <> Crash /\
+  (forall i, snd (unmarshal_ix sm o data) = OkN i -> i <= nlen data).
+Proof.
+  unfold unmarshal_ix, unmarshal_ls.
+  destruct data as [|h0 rest0].
+  - cbn. repeat split; [discriminate|intros i H; discriminate].
+  - set (data := h0 :: rest0).
+    replace (nlen data =? 0) with false by (unfold data; rewrite nlen_cons; lia).
+    change (get data 0) with (Some h0). cbv beta iota zeta.
+    assert (Hfin : forall (o2 : kv) (h2 i2 : N) (r : list N), i2 <= nlen data ->
+      let res := (if negb (h2 =? 127) then (o2, Hdr (i2 - 1))
+                  else if i2 <? sm then (o2, OkN i2) else (o2, at_eof sm i2)) in
+      snd res <> Crash /\ (forall i, snd res = OkN i -> i <= nlen data)).
+    { intros o2 h2 i2 r Hi2. cbv zeta. destruct (negb (h2 =? 127)); [|destruct (i2 <? sm)]; cbn [snd].
+      - split; [discriminate|intros i H; discriminate].
+      - split; [discriminate|]. intros i H; inversion H; subst; exact Hi2.
+      - split; [apply at_eof_not_crash|]. intros i H. unfold at_eof in H. destruct (sm <=? i2); discriminate. }
+    assert (Hstep2 : forall (o1 : kv) (h1 i1 : N), i1 <= nlen data ->
+      let rix := match (if h1 =? 1 then
+                     match read_field_ix sm data i1 with
+                     | FStop out => inl (o1, out)
+                     | FNext s h i => inr (mkKV (key o1) s, h, i)
+                     end
+                   else inr (o1, h1, i1)) with
+                 | inl r => r
+                 | inr (o2, h2, i2) =>
+                   if negb (h2 =? 127) then (o2, Hdr (i2 - 1))
+                   else if i2 <? sm then (o2, OkN i2)
+                   else (o2, at_eof sm i2)
+                 end in
+      let rls := match (if h1 =? 1 then
+                     match read_field_ls sm (skipn (N.to_nat i1) data) i1 with
+                     | LStop out => inl (o1, out)
+                     | LNext s h rest i => inr (mkKV (key o1) s, h, rest, i)
+                     end
+                   else inr (o1, h1, skipn (N.to_nat i1) data, i1)) with
+                 | inl r => r
+                 | inr (o2, h2, _, i2) =>
+                   if negb (h2 =? 127) then (o2, Hdr (i2 - 1))
+                   else if i2 <? sm then (o2, OkN i2)
+                   else (o2, at_eof sm i2)
+                 end in
+      rix = rls /\ snd rix <> Crash /\ (forall i, snd rix = OkN i -> i <= nlen data)).
+    { intros o1 h1 i1 Hi1. cbv zeta. destruct (h1 =? 1).
+      - pose proof (read_field_rel sm data i1) as HC.
+        destruct (read_field_ix sm data i1) as [out|s h i'].
+        + destruct HC as [HC [Hout1 Hout2]]. rewrite HC. cbn [snd].
+          split; [reflexivity|]. split; [exact Hout1|].
+          intros i H. exfalso. exact (Hout2 i H).
+        + destruct HC as [HC Hi']. rewrite HC. split; [reflexivity|].
+          exact (Hfin _ h i' [] Hi').
+      - split; [reflexivity|]. exact (Hfin _ h1 i1 [] Hi1). }
+    destruct (h0 =? 0).
+    + pose proof (read_field_rel sm data 1) as HC.
+      change (skipn (N.to_nat 1) data) with rest0 in HC.
+      destruct (read_field_ix sm data 1) as [out|s h i'].
+      * destruct HC as [HC [Hout1 Hout2]]. rewrite HC. cbn [snd].
+        split; [reflexivity|]. split; [exact Hout1|].
+        intros i H. exfalso. exact (Hout2 i H).
+      * destruct HC as [HC Hi']. rewrite HC.
+        exact (Hstep2 (mkKV s (val o)) h i' Hi').
+    + assert (H1 : 1 <= nlen data) by (unfold data; rewrite nlen_cons; lia).
+      pose proof (Hstep2 o h0 1 H1) as HS. cbv zeta in HS.
+      change (skipn (N.to_nat 1) data) with rest0 in HS. exact HS.
+Qed.
+
+Lemma unmarshal_ix_ls : forall sm o data, unmarshal_ix sm o data = unmarshal_ls sm o data.
+Proof. intros sm o data. exact (proj1 (unmarshal_rel sm o data)). Qed.
+
+Lemma unmarshal_ix_no_crash : forall sm o data, snd (unmarshal_ix sm o data) <> Crash.
+Proof. intros sm o data. exact (proj1 (proj2 (unmarshal_rel sm o data))). Qed.
+
+Lemma unmarshal_ix_consumed_le : forall sm o data o' i,
+  unmarshal_ix sm o data = (o', OkN i) -> i <= nlen data.
+Proof.
+  intros sm o data o' i H. apply (proj2 (proj2 (unmarshal_rel sm o data))).
+  rewrite H. reflexivity.
+Qed.
+
+Lemma unmarshal_binary_ix_no_crash : forall sm o data, snd (unmarshal_binary_ix sm o data) <> Crash.
+Proof.
+  intros sm o data. unfold unmarshal_binary_ix.
+  pose proof (unmarshal_ix_no_crash sm o data) as H.
+  destruct (unmarshal_ix sm o data) as [o' out]. cbn [snd] in H.
+  destruct out as [i| | |i|i|]; try exact H.
+  destruct (i <? nlen data); cbn [snd]; discriminate.
+Qed.
+
+(** * Varint round trip: bit-level facts *)
+
+Lemma size_nat_bound_pos p : N.pos p < 2 ^ N.of_nat (Pos.size_nat p).
+Proof.
+  induction p as [p IH|p IH|]; cbn [Pos.size_nat]; rewrite ?Nat2N.inj_succ, ?N.pow_succ_r'.
+  - lia.
+  - lia.
+  - reflexivity.
+Qed.
+
+Lemma size_nat_bound x : x < 2 ^ N.of_nat (N.size_nat x).
+Proof.
+  destruct x as [|p].
+  - reflexivity.
+  - apply size_nat_bound_pos.
+Qed.
+
+Lemma testbit_true_ge a n : N.testbit a n = true -> 2 ^ n <= a.
+Proof.
+  intros H. apply N.testbit_true in H.
+  destruct (N.lt_ge_cases a (2 ^ n)) as [L|L]; [|exact L].
+  rewrite (N.div_small _ _ L) in H. change (0 mod 2) with 0 in H. discriminate H.
+Qed.
+
+Lemma enc_byte_ge x : 128 <= (N.lor x 128) mod 256.
+Proof.
+  change 128 with (2 ^ 7) at 1. apply testbit_true_ge.
+  change 256 with (2 ^ 8). rewrite N.mod_pow2_bits_low by reflexivity.
+  rewrite N.lor_spec. change (N.testbit 128 7) with true. apply orb_true_r.
+Qed.
+
+Lemma enc_byte_land x : N.land ((N.lor x 128) mod 256) 127 = x mod 128.
+Proof.
+  change 256 with (2 ^ 8). change (x mod 128) with (x mod 2 ^ 7). change 127 with (N.ones 7).
+  rewrite <- !N.land_ones, <- N.land_assoc.
+  change (N.land (N.ones 8) (N.ones 7)) with (N.ones 7).
+  rewrite N.land_lor_distr_l. change (N.land 128 (N.ones 7)) with 0.
+  apply N.lor_0_r.
+Qed.
+
+Lemma split7 x : N.lor (x mod 128) (N.shiftl (N.shiftr x 7) 7) = x.
+Proof.
+  change (x mod 128) with (x mod 2 ^ 7).
+  rewrite <- N.land_ones, <- N.ldiff_ones_r, N.lor_comm. apply N.lor_ldiff_and.
+Qed.
+
+Lemma shl64_small b s : b * 2 ^ s < w64 -> shl64 b s = N.shiftl b s.
+Proof. intros H. unfold shl64. rewrite N.shiftl_mul_pow2. apply N.mod_small. exact H. Qed.
+
+Lemma shr7_fuel f x : x < 2 ^ N.of_nat (S f) -> N.shiftr x 7 < 2 ^ N.of_nat f.
+Proof.
+  intros H. rewrite Nat2N.inj_succ, N.pow_succ_r' in H.
+  rewrite N.shiftr_div_pow2. change (2 ^ 7) with 128.
+  apply N.div_lt_upper_bound; lia.
+Qed.
+
+Lemma shr7_nowrap x s : x * 2 ^ s < w64 -> N.shiftr x 7 * 2 ^ (s + 7) < w64.
+Proof.
+  intros H. rewrite N.shiftr_div_pow2, N.pow_add_r. change (2 ^ 7) with 128.
+  assert (Hle : x / 128 * (2 ^ s * 128) <= x * 2 ^ s).
+  { rewrite (N.mul_comm (2 ^ s) 128), N.mul_assoc. apply N.mul_le_mono_r.
+    rewrite N.mul_comm. apply N.mul_div_le. lia. }
+  lia.
+Qed.
+
+Lemma low7_nowrap x s : x * 2 ^ s < w64 -> x mod 128 * 2 ^ s < w64.
+Proof.
+  intros H. assert (Hle : x mod 128 * 2 ^ s <= x * 2 ^ s).
+  { apply N.mul_le_mono_r. apply N.mod_le. lia. }
+  lia.
+Qed.
+
+(** unfolding lemmas for the list decoder *)
+Lemma loop_last b rest acc s i : b < 128 ->
+  varint_loop_ls (b :: rest) acc s i = LVal (N.lor acc (shl64 b s)) rest (i + 1).
+Proof. intros H. cbn [varint_loop_ls]. replace (b <? 128) with true by lia. reflexivity. Qed.
+
+Lemma loop_cont b rest acc s i : 128 <= b ->
+  varint_loop_ls (b :: rest) acc s i =
+  varint_loop_ls rest (N.lor acc (shl64 (N.land b 127) s)) (s + 7) (i + 1).
+Proof. intros H. cbn [varint_loop_ls]. replace (b <? 128) with false by lia. reflexivity. Qed.
+
+Lemma read_len_last b rest i : b < 128 -> read_len_ls (b :: rest) i = LVal b rest (i + 1).
+Proof. intros H. cbn [read_len_ls]. replace (128 <=? b) with false by lia. reflexivity. Qed.
+
+Lemma read_len_cont b rest i : 128 <= b ->
+  read_len_ls (b :: rest) i = varint_loop_ls rest (N.land b 127) 7 (i + 1).
+Proof. intros H. cbn [read_len_ls]. replace (128 <=? b) with true by lia. reflexivity. Qed.
+
+Lemma varint_loop_enc rest : forall f x acc s i,
+  x < 2 ^ N.of_nat f -> x * 2 ^ s < w64 ->
+  varint_loop_ls (varint_enc f x ++ rest) acc s i =
+  LVal (N.lor acc (N.shiftl x s)) rest (i + nlen (varint_enc f x)).
+Proof.
+  induction f as [|f IH]; intros x acc s i Hf Hw.
+  - assert (Hx : x = 0) by (change (2 ^ N.of_nat 0) with 1 in Hf; lia). subst x.
+    cbn [varint_enc app]. change (0 mod 256) with 0.
+    rewrite loop_last by lia. unfold shl64. rewrite N.shiftl_0_l.
+    change (0 mod w64) with 0. reflexivity.
+  - cbn [varint_enc]. destruct (128 <=? x) eqn:E.
+    + cbn [app]. rewrite loop_cont by apply enc_byte_ge.
+      rewrite enc_byte_land, shl64_small by (apply low7_nowrap; exact Hw).
+      rewrite IH by (first [apply shr7_fuel; exact Hf | apply shr7_nowrap; exact Hw]).
+      f_equal.
+      * rewrite <- N.lor_assoc. f_equal. replace (s + 7) with (7 + s) by lia.
+        rewrite <- N.shiftl_shiftl, <- N.shiftl_lor, split7. reflexivity.
+      * rewrite nlen_cons. lia.
+    + cbn [app]. rewrite loop_last by lia. rewrite shl64_small by exact Hw. reflexivity.
+Qed.
+
+Lemma read_len_enc rest f x i :
+  x < 2 ^ N.of_nat f -> x < w64 ->
+  read_len_ls (varint_enc f x ++ rest) i = LVal x rest (i + nlen (varint_enc f x)).
+Proof.
+  intros Hf Hw. destruct f as [|f].
+  - assert (Hx : x = 0) by (change (2 ^ N.of_nat 0) with 1 in Hf; lia). subst x.
+    cbn [varint_enc app]. change (0 mod 256) with 0.
+    rewrite read_len_last by lia. reflexivity.
+  - cbn [varint_enc]. destruct (128 <=? x) eqn:E.
+    + cbn [app]. rewrite read_len_cont by apply enc_byte_ge.
+      rewrite enc_byte_land.
+      assert (Hw7 : N.shiftr x 7 * 2 ^ 7 < w64).
+      { apply (shr7_nowrap x 0). change (2 ^ 0) with 1. lia. }
+      rewrite varint_loop_enc by (first [apply shr7_fuel; exact Hf | exact Hw7]).
+      rewrite split7, nlen_cons. f_equal. lia.
+    + cbn [app]. rewrite read_len_last by lia. reflexivity.
+Qed.
+
+Lemma skipn_app_exact {A} (s r : list A) : skipn (length s) (s ++ r) = r.
+Proof. induction s as [|a s IH]; [reflexivity|]. cbn [length app skipn]. exact IH. Qed.
+
+Lemma firstn_app_exact {A} (s r : list A) : firstn (length s) (s ++ r) = s.
+Proof. induction s as [|a s IH]; [reflexivity|]. cbn [length app firstn]. now rewrite IH. Qed.
+
+Lemma skipn_app_exact_N {A} (s r : list A) : skipn (N.to_nat (nlen s)) (s ++ r) = r.
+Proof. unfold nlen. rewrite Nat2N.id. apply skipn_app_exact. Qed.
+
+Lemma firstn_app_exact_N {A} (s r : list A) : firstn (N.to_nat (nlen s)) (s ++ r) = s.
+Proof. unfold nlen. rewrite Nat2N.id. apply firstn_app_exact. Qed.
+
+Definition venc (s : list N) : list N := varint_enc (N.size_nat (nlen s)) (nlen s).
+
+Lemma read_field_enc sm s h rest2 i :
+  nlen s <= sm -> nlen s < w64 ->
+  read_field_ls sm (venc s ++ s ++ h :: rest2) i = LNext s h rest2 (i + nlen (venc s) + nlen s + 1).
+Proof.
+  intros Hsm Hw. unfold read_field_ls, venc.
+  rewrite read_len_enc by (first [apply size_nat_bound | exact Hw]).
+  replace (sm <? nlen s) with false by lia.
+  replace (nlen (s ++ h :: rest2) <=? nlen s) with false by (rewrite nlen_app, nlen_cons; lia).
+  rewrite skipn_app_exact_N, firstn_app_exact_N. reflexivity.
+Qed.
+
+(** * Round trip on the list-consuming decoder *)
+
+Definition finish (sm : N) (o2 : kv) (h2 i2 : N) : kv * outcome :=
+  if negb (h2 =? 127) then (o2, Hdr (i2 - 1))
+  else if i2 <? sm then (o2, OkN i2) else (o2, at_eof sm i2).
+
+Definition step2_ls (sm : N) (o1 : kv) (h1 : N) (rest1 : list N) (i1 : N) : kv * outcome :=
+  if h1 =? 1 then
+    match read_field_ls sm rest1 i1 with
+    | LStop out => (o1, out)
+    | LNext s h rest i => finish sm (mkKV (key o1) s) h i
+    end
+  else finish sm o1 h1 i1.
+
+Lemma unmarshal_ls_cons sm o h0 rest0 :
+  unmarshal_ls sm o (h0 :: rest0) =
+  if h0 =? 0 then
+    match read_field_ls sm rest0 1 with
+    | LStop out => (o, out)
+    | LNext s h rest i => step2_ls sm (mkKV s (val o)) h rest i
+    end
+  else step2_ls sm o h0 rest0 1.
+Proof.
+  unfold unmarshal_ls, step2_ls, finish.
+  destruct (h0 =? 0).
+  - destruct (read_field_ls sm rest0 1) as [out|s h rest i]; [reflexivity|].
+    cbv beta iota zeta. destruct (h =? 1); [|reflexivity].
+    destruct (read_field_ls sm rest i); reflexivity.
+  - cbv beta iota zeta. destruct (h0 =? 1); [|reflexivity].
+    destruct (read_field_ls sm rest0 1); reflexivity.
+Qed.
+
+Lemma finish_ok sm o2 i2 : i2 < sm -> finish sm o2 127 i2 = (o2, OkN i2).
+Proof.
+  intros H. unfold finish. change (negb (127 =? 127)) with false. cbv iota.
+  replace (i2 <? sm) with true by lia. reflexivity.
+Qed.
+
+Lemma step2_none sm o1 suffix i1 : i1 < sm -> step2_ls sm o1 127 suffix i1 = (o1, OkN i1).
+Proof.
+  intros H. unfold step2_ls. change (127 =? 1) with false. cbv iota.
+  apply finish_ok. exact H.
+Qed.
+
+Lemma step2_some sm o1 v suffix i1 :
+  nlen v <= sm -> nlen v < w64 -> i1 + nlen (venc v) + nlen v + 1 < sm ->
+  step2_ls sm o1 1 (venc v ++ v ++ 127 :: suffix) i1 =
+  (mkKV (key o1) v, OkN (i1 + nlen (venc v) + nlen v + 1)).
+Proof.
+  intros H1 H2 H3. unfold step2_ls. change (1 =? 1) with true. cbv iota.
+  rewrite read_field_enc by assumption. apply finish_ok. exact H3.
+Qed.
+
+Ltac norm_nlen H :=
+  repeat (rewrite nlen_app in H || rewrite nlen_cons in H || rewrite nlen_nil in H).
+
+Ltac norm_app := repeat (progress cbn [app] || rewrite <- app_assoc).
+
+Lemma pair_ok_eq (a : kv) i l : i = l -> (a, OkN i) = (a, OkN l).
+Proof. intros ->. reflexivity. Qed.
+
+Lemma roundtrip_ls sm k v k0 v0 l suffix :
+  sm < 2 ^ 63 -> marshal_len sm (mkKV k v) = Some l -> l < sm ->
+  unmarshal_ls sm (mkKV k0 v0) (marshal_to (mkKV k v) ++ suffix) =
+  (mkKV (if nlen k =? 0 then k0 else k) (if nlen v =? 0 then v0 else v), OkN l).
+Proof.
+  intros Hsm HL Hlt. pose proof (marshal_len_ok _ _ _ HL) as Hlen.
+  assert (H63 : 2 ^ 63 < w64) by reflexivity.
+  unfold marshal_len, field_len in HL. cbv zeta in HL. cbn [key val] in HL.
+  unfold marshal_to, field_enc in *. cbn [key val] in Hlen |- *.
+  fold (venc k) in Hlen |- *. fold (venc v) in Hlen |- *.
+  destruct (nlen k =? 0) eqn:Ek; destruct (nlen v =? 0) eqn:Ev; norm_nlen Hlen; norm_app.
+  - rewrite unmarshal_ls_cons. change (127 =? 0) with false. cbv iota.
+    rewrite step2_none by lia. apply pair_ok_eq. lia.
+  - destruct (sm <? nlen v) eqn:Ev2; [discriminate HL|].
+    rewrite unmarshal_ls_cons. change (1 =? 0) with false. cbv iota.
+    rewrite step2_some by lia. cbn [key val]. apply pair_ok_eq. lia.
+  - destruct (sm <? nlen k) eqn:Ek2; [discriminate HL|].
+    rewrite unmarshal_ls_cons. change (0 =? 0) with true. cbv iota.
+    rewrite read_field_enc by lia. cbn [key val].
+    rewrite step2_none by lia. apply pair_ok_eq. lia.
+  - destruct (sm <? nlen k) eqn:Ek2; [discriminate HL|].
+    destruct (sm <? nlen v) eqn:Ev2; [discriminate HL|].
+    rewrite unmarshal_ls_cons. change (0 =? 0) with true. cbv iota.
+    rewrite read_field_enc by lia. cbn [key val].
+    rewrite step2_some by lia. cbn [key val]. apply pair_ok_eq. lia.
+Qed.
+
+Definition merged (o o0 : kv) : kv :=
+  mkKV (if nlen (key o) =? 0 then key o0 else key o) (if nlen (val o) =? 0 then val o0 else val o).
+
+Lemma roundtrip_ix_suffix : forall sm o o0 l suffix,
+  sm < 2 ^ 63 -> marshal_len sm o = Some l -> l < sm ->
+  unmarshal_ix sm o0 (marshal_to o ++ suffix) = (merged o o0, OkN l).
+Proof.
+  intros sm [k v] [k0 v0] l suffix Hsm HL Hlt. rewrite unmarshal_ix_ls.
+  unfold merged. cbn [key val]. apply roundtrip_ls; assumption.
+Qed.
+
+Lemma roundtrip_ix : forall sm o o0 l,
+  sm < 2 ^ 63 -> marshal_len sm o = Some l -> l < sm ->
+  unmarshal_ix sm o0 (marshal_to o) =
+  (mkKV (if nlen (key o) =? 0 then key o0 else key o) (if nlen (val o) =? 0 then val o0 else val o), OkN l).
+Proof.
+  intros sm o o0 l Hsm HL Hlt.
+  pose proof (roundtrip_ix_suffix sm o o0 l [] Hsm HL Hlt) as H.
+  rewrite app_nil_r in H. exact H.
+Qed.
+
+Lemma roundtrip_fresh : forall sm o l,
+  sm < 2 ^ 63 -> marshal_len sm o = Some l -> l < sm ->
+  unmarshal_ix sm (mkKV [] []) (marshal_to o) = (o, OkN l).
+Proof.
+  intros sm o l Hsm HL Hlt. rewrite (roundtrip_ix sm o (mkKV [] []) l Hsm HL Hlt).
+  destruct o as [k v]. cbn [key val].
+  destruct (nlen k =? 0) eqn:Ek; destruct (nlen v =? 0) eqn:Ev;
+    rewrite ?(nlen_0_nil k) by lia; rewrite ?(nlen_0_nil v) by lia; reflexivity.
+Qed.
+
+Lemma roundtrip_binary : forall sm o o0 l,
+  sm < 2 ^ 63 -> marshal_len sm o = Some l -> l < sm ->
+  unmarshal_binary_ix sm o0 (marshal_to o) =
+  (mkKV (if nlen (key o) =? 0 then key o0 else key o) (if nlen (val o) =? 0 then val o0 else val o), OkN l).
+Proof.
+  intros sm o o0 l Hsm HL Hlt. unfold unmarshal_binary_ix.
+  rewrite (roundtrip_ix sm o o0 l Hsm HL Hlt), (marshal_len_ok _ _ _ HL).
+  replace (l <? l) with false by lia. reflexivity.
+Qed.
+
+Lemma roundtrip_binary_fresh : forall sm o l,
+  sm < 2 ^ 63 -> marshal_len sm o = Some l -> l < sm ->
+  unmarshal_binary_ix sm (mkKV [] []) (marshal_to o) = (o, OkN l).
+Proof.
+  intros sm o l Hsm HL Hlt. unfold unmarshal_binary_ix.
+  rewrite (roundtrip_fresh sm o l Hsm HL Hlt), (marshal_len_ok _ _ _ HL).
+  replace (l <? l) with false by lia. reflexivity.
+Qed.
+
+Lemma tail_full : forall sm o o0 l suffix,
+  sm < 2 ^ 63 -> marshal_len sm o = Some l -> l < sm -> suffix <> [] ->
+  unmarshal_binary_ix sm o0 (marshal_to o ++ suffix) =
+  (mkKV (if nlen (key o) =? 0 then key o0 else key o) (if nlen (val o) =? 0 then val o0 else val o), Tail l).
+Proof.
+  intros sm o o0 l suffix Hsm HL Hlt Hs. unfold unmarshal_binary_ix.
+  rewrite (roundtrip_ix_suffix sm o o0 l suffix Hsm HL Hlt).
+  rewrite nlen_app, (marshal_len_ok _ _ _ HL).
+  assert (Hn : 0 < nlen suffix).
+  { destruct suffix as [|a r]; [contradiction|]. rewrite nlen_cons. lia. }
+  replace (l <? l + nlen suffix) with true by lia. reflexivity.
+Qed.
+
+Lemma tail_snd : forall sm o o0 l suffix,
+  sm < 2 ^ 63 -> marshal_len sm o = Some l -> l < sm -> suffix <> [] ->
+  snd (unmarshal_binary_ix sm o0 (marshal_to o ++ suffix)) = Tail l.
+Proof.
+  intros sm o o0 l suffix Hsm HL Hlt Hs.
+  rewrite (tail_full sm o o0 l suffix Hsm HL Hlt Hs). reflexivity.
+Qed.
+
+Lemma boundary_refuted : exists sm o l,
+  marshal_len sm o = Some l /\ l = sm /\
+  snd (unmarshal_ix sm (mkKV [] []) (marshal_to o)) = Max.
+Proof.
+  exists 8, (mkKV [1; 2; 3; 4; 5] []), 8. vm_compute. repeat split.
+Qed.
